@@ -48,6 +48,8 @@ pub enum Mode {
     /// nothing blocks except the coordinator, which waits at the poll gate until a result is
     /// in the channel or nothing is outstanding (so that it never sleeps 100 ms)
     Free,
+    /// nothing blocks at all: the coordinator polls and sleeps exactly as in production
+    Ungated,
 }
 
 pub struct Inner {
@@ -232,6 +234,11 @@ impl Ctl {
             if g.coord == Coord::Finished {
                 return Wait::Finished;
             }
+            if let Some(p) = &g.problem {
+                if p.starts_with("hang: runaway") {
+                    return Wait::Problem(p.clone());
+                }
+            }
             let (q, a, m, _p) = Self::counts(&g);
             if g.coord == Coord::AtPoll && m == 0 && (q == 0 || a >= self.nthreads) && !g.drain {
                 return Wait::Quiescent;
@@ -251,6 +258,12 @@ impl Ctl {
 
     /// decisions enabled in the current quiescent state, in a canonical order
     pub fn enabled(&self) -> Vec<Decision> {
+        self.enabled_opt(false)
+    }
+
+    /// `empty_poll`: also offer a poll although the channel is empty and tasks are outstanding - what the real coordinator
+    /// does every 100 ms (it costs that sleep unless the code leaves its loop, which is exactly what is being probed)
+    pub fn enabled_opt(&self, empty_poll: bool) -> Vec<Decision> {
         let g = self.inner.lock().unwrap();
         let mut v = vec![];
         for t in &g.tasks {
@@ -265,7 +278,7 @@ impl Ctl {
         }
         let (q, a, _, _) = Self::counts(&g);
         let in_chan = g.sent - g.recvd;
-        if in_chan > 0 || (q == 0 && a == 0) {
+        if in_chan > 0 || (q == 0 && a == 0) || empty_poll {
             v.push(Decision::Poll);
         }
         v
@@ -347,6 +360,16 @@ impl Controller for Handle {
         g.total = total;
         c.push(&mut g, json!({"e": "spawn", "k": kind, "f": file, "first": first, "total": total, "t": id}));
         c.cv.notify_all();
+        if g.tasks.len() > 3000 {
+            // no project of the harness needs that many tasks: the coordinator spawns without end
+            g.problem.get_or_insert("hang: runaway spawning (more than 3000 tasks)".into());
+            c.push(&mut g, json!({"e": "hang", "done": 0, "total": total}));
+            g.drain = true;
+            c.cv.notify_all();
+            loop {
+                g = c.cv.wait(g).unwrap();
+            }
+        }
     }
 
     fn on_dedup(&self, file: &str) {
@@ -437,6 +460,7 @@ impl Controller for Handle {
                     g = c.cv.wait(g).unwrap();
                 }
             }
+            Mode::Ungated => {}
             Mode::Free => {
                 // wait until a result is in the channel or nothing is outstanding
                 let deadline = Instant::now() + Duration::from_secs(20);
